@@ -24,6 +24,8 @@ HYPER = (
     + [("hht", {"alpha": al, "beta": b, "gamma": g}) for al in (0.0, 0.1, 0.3, 0.5) for b, g in [(0.25, 0.5), (0.3, 0.6), (0.3025, 0.65)]]
     + [("hht_newmark", {"alpha": al}) for al in (0.0, 1 / 6, 1 / 3)]
     + [("midpoint", {}), ("euler_implicit", {}), ("euler_explicit", {})]
+    # schemes without free parameter called with left-over (alpha, beta, gamma) of another set-up: the parameters must not enter
+    + [("midpoint", {"alpha": 0.2, "beta": 0.3, "gamma": 0.7}), ("euler_implicit", {"alpha": 0.3, "beta": 0.3, "gamma": 0.7})]
 )
 PARAB = [("parabolic", {"alpha": al}) for al in (0.25, 0.5, 1.0)]
 
@@ -71,6 +73,12 @@ def cases(tier, seed):
                 for con in CONSTRAINTS:
                     for load in ("none", "constant"):
                         out.append({"kind": "newton", "system": system, "constraint": con, "load": load, "l1": i})
+    # the Newton path of a REAL nonlinear simulation (HyperElastic, Saint-Venant-Kirchhoff) in its linear limit (amplitudes 1e-7):
+    # update relations, and K_lin u_t + C v_t + M a_t = F with K_lin, M of the linear elastic simulation of the same material
+    for i, L in enumerate(letters("elastic")):
+        if L["algo"] != "euler_explicit" and (tier == "thorough" or L["dt"] == 0.37):
+            for visc in (False, True):
+                out.append({"kind": "hyper", "l1": i, "viscous": visc})
     nsteps = 50 if tier == "quick" else 400
     dts = [0.05, 0.37, 5.0, 40.0] if tier == "quick" else [0.01, 0.05, 0.37, 1.0, 5.0, 40.0, 1000.0]
     for algo in ("newmark_avg", "midpoint", "euler_implicit"):
@@ -312,6 +320,70 @@ def do_step(simu, L, state):
 
 def run_case(case):
     return globals()["_run_" + case["kind"]](case)
+
+
+def _run_hyper(case):
+    from EasyFEA import Models, Simulations
+
+    L = letters("elastic")[case["l1"]]
+    lam, mu, th, rho, eta = 1.2, 0.8, 0.8, 1.7, (0.3 if case["viscous"] else 0.0)
+    mesh = Z.template_2d("TRI3", 1).build()
+    mat = Models.HyperElastic.SaintVenantKirchhoff(2, lmbda=lam, mu=mu, thickness=th)
+    if eta:
+        mat.eta = eta
+    simu = Simulations.HyperElastic(mesh, mat)
+    simu.rho = rho
+    # linear twin: plane strain isotropic with the same Lame constants
+    E = mu * (3 * lam + 2 * mu) / (lam + mu)
+    nu = lam / (2 * (lam + mu))
+    lin = Simulations.Elastic(Z.template_2d("TRI3", 1).build(), Models.Elastic.Isotropic(2, E=E, v=nu, planeStress=False, thickness=th))
+    lin.rho = rho
+    K, _, M, _ = lin.Get_K_C_M_F()
+    K, M = K.toarray(), M.toarray()
+    n = K.shape[0]
+    key = dict(kind="hyper", algo=L["algo"], params=",".join(f"{k}={round(v, 4)}" for k, v in sorted(L["params"].items())), viscous=bool(case["viscous"]))
+    amp = 1e-7
+    un, vn, an = (amp * x for x in generic_state(n))
+    simu.Bc_Init()
+    unk = simu.Get_unknowns()
+    simu.add_dirichlet(np.array([0]), [0.0] * len(unk), unk)
+    un[:2] = 0.0
+    pt = simu.problemType
+    simu._Set_solutions(pt, un.copy(), vn.copy(), an.copy())
+    set_algo(simu, L)
+    v = []
+    import contextlib
+    import io
+
+    try:
+        with contextlib.redirect_stdout(io.StringIO()):
+            simu.Solve()
+    except Exception as err:
+        return {"violations": [viol("hyper_raises", f"{lname(L)} on HyperElastic: Solve raised {type(err).__name__}: {str(err)[:160]}", **key)],
+                "fingerprint": fp("hyperraise", case), "nontrivial": False, "transitions": 1}
+    u1 = np.array(simu._Get_u_n(pt), dtype=float)
+    v1 = np.array(simu._Get_v_n(pt), dtype=float)
+    a1 = np.array(simu._Get_a_n(pt), dtype=float)
+    dv1, da1 = doc_update(L, un, vn, an, u1)
+    if _rel(v1, dv1, vn, (u1 - un) / L["dt"]) > 1e-9:
+        v.append(viol("update_v", f"{lname(L)} on HyperElastic: returned v_(n+1) violates the documented update (rel {_rel(v1, dv1, vn):.2e})", **key))
+    if _rel(a1, da1, an, (u1 - un) / L["dt"] ** 2, vn / L["dt"]) > 1e-9:
+        v.append(viol("update_a", f"{lname(L)} on HyperElastic: returned a_(n+1) violates the documented update (rel {_rel(a1, da1, an):.2e})", **key))
+    if not case["viscous"]:
+        ut, vt, at = doc_eval(L, un, vn, an, u1, dv1, da1)
+        free = np.arange(2, n)
+        terms = [K @ ut, M @ at]
+        res = (terms[0] + terms[1])[free]
+        sc = sum(np.max(np.abs(t)) for t in terms) + 1e-300
+        # linear limit: the internal force differs from K_lin u by O(|grad u|^2) ~ amp relative; Newton stops at its own tolerance
+        if np.max(np.abs(res)) > 1e-4 * sc:
+            v.append(viol("equation", f"{lname(L)} on HyperElastic (linear limit, amplitude {amp:g}): |K_lin u_t + M a_t| on free dofs = {np.max(np.abs(res)):.3e} "
+                                      f"(scale {sc:.3e}): the step is not the scheme's equation of motion", **key))
+    else:
+        # with Kelvin-Voigt viscosity the dissipative operator is not a multiple of K_lin: the step must differ from the inviscid one
+        # and still satisfy the update relations (checked above); the equation itself is C18's subject (tangent = d residual)
+        pass
+    return {"violations": v, "fingerprint": fp("hyper", case, u1, v1, a1), "nontrivial": _rel(u1, un) > 1e-9, "transitions": 1}
 
 
 def _cfgkey(case):
